@@ -54,3 +54,6 @@ openssl req -newkey rsa:2048 -nodes -keyout nosan.key -out nosan.csr -subj "/CN=
 printf "basicConstraints=CA:FALSE\nkeyUsage=digitalSignature,keyEncipherment\nextendedKeyUsage=serverAuth\n" > nosan.ext
 openssl x509 -req -in nosan.csr -CA root.pem -CAkey root.key -CAcreateserial -out nosan.pem -days $days -extfile nosan.ext 2>/dev/null
 rm -f nosan.csr nosan.ext *.srl
+# a peer that presents [a self-signed certificate for other names whose key it holds, the `good` certificate whose key it does
+# not hold]: the first certificate is the one that counts
+cat selfsigned_wrongname.pem good.pem > appended.pem; cp selfsigned_wrongname.key appended.key
